@@ -62,6 +62,8 @@ def run(chk, tier):
             g = progen.ProgGen(((chk.seed + 7) % 1000003 + k) * 100003 + i, emph=("halt",) if i % 2 == 0 else ())
             if i % 2 == 0:
                 g.feat |= {"halt", "fun"}
+            if i % 3 == 1:
+                g.feat |= {"tup", "fun"}
             progs.append(g.program("h%d_%d" % (k, i)))
         fam = progcheck.Family(chk, progs, "gen%d" % k, workers=vlib.NCPU, timeout=1500)
         for s, c in fam.status_count.items():
